@@ -129,7 +129,23 @@ func (p *Prop[C]) safeCheck(c C, st *evid.Stats) (err error) {
 			err = fmt.Errorf("harness or library panic outside Run: %v", r)
 		}
 	}()
-	return p.Check(c, st)
+	err = p.Check(c, st)
+	if err != nil && p.ID != "C19" && strings.HasPrefix(err.Error(), "panic") {
+		// a panic prevents observing this property; whether the library may panic is C19's statement
+		st.Exclude("library panicked - not judged here (C19 decides panics): " + firstLine(err.Error()))
+		return nil
+	}
+	return err
+}
+
+func firstLine(s string) string {
+	if i := strings.IndexByte(s, '\n'); i >= 0 {
+		s = s[:i]
+	}
+	if len(s) > 120 {
+		s = s[:120]
+	}
+	return s
 }
 
 type skipCase struct{}
